@@ -95,6 +95,18 @@ class DatedSpot(Underlying):
         return TimeGrid(start=0.0, end=maturity, num=self.num)
 
 
+class DatedDefaultTime(DefaultTime):
+    """Harness underlying: the library's default time observed on ``num`` equally spaced product dates (the simulators
+    then draw their jumps date interval by date interval, also in the jump-time and maximum-step modes)"""
+
+    def __init__(self, default_level, num):
+        super().__init__(default_level)
+        self.num = int(num)
+
+    def compute_times_grid(self, maturity):
+        return TimeGrid(start=0.0, end=maturity, num=self.num)
+
+
 def build_product(spec, model=None):
     """spec: {"kind":..., "maturity":..., "dates": n (number of time points incl. 0), "strike":..., "notional":...}"""
     kind = spec["kind"]
@@ -122,7 +134,8 @@ def build_product(spec, model=None):
         pay = Barrier(strike=k, payoff_type=PayoffType[spec.get("cp", "CALL")],
                       barrier_type=BarrierType[spec["barrier_type"]], barrier=spec["barrier"])
     elif kind == "cds":
-        und = DefaultTime(default_level=spec.get("default_level", -0.08))
+        und = (DefaultTime(default_level=spec.get("default_level", -0.08)) if dates <= 2
+               else DatedDefaultTime(spec.get("default_level", -0.08), dates))
         pay = CDS(recovery_rate=spec.get("recovery", 0.4), spread=spec.get("spread", 0.01), maturity=T,
                   discounting=model.df)
     else:
